@@ -229,24 +229,37 @@ const (
 	keySOD = 101
 )
 
+// loadFile stores one file in the document the way a reader does.
+func loadFile(doc *document.Document, n int, b []byte) (err error) {
+	switch n {
+	case keyCOM:
+		doc.Mf.Lds1.Com, err = document.NewCOM(bytes.Clone(b))
+	case keySOD:
+		doc.Mf.Lds1.Sod, err = document.NewSOD(bytes.Clone(b))
+	default:
+		err = doc.NewDG(n, bytes.Clone(b))
+	}
+	return err
+}
+
 // checkSummary builds the document from the files and compares the summary.
 func checkSummary(files map[int][]byte) string {
 	var ex document.DocumentEx
-	doc := &ex.Document
-	for n, b := range files {
-		var err error
-		switch n {
-		case keyCOM:
-			doc.Mf.Lds1.Com, err = document.NewCOM(bytes.Clone(b))
-		case keySOD:
-			doc.Mf.Lds1.Sod, err = document.NewSOD(bytes.Clone(b))
-		default:
-			err = doc.NewDG(n, bytes.Clone(b))
-		}
-		if err != nil {
+	keys := make([]int, 0, len(files))
+	for n := range files {
+		keys = append(keys, n)
+	}
+	sort.Ints(keys)
+	for _, n := range keys {
+		if err := loadFile(&ex.Document, n, files[n]); err != nil {
 			return fmt.Sprintf("file %d rejected: %v", n, err)
 		}
 	}
+	return compareSummary(&ex, files)
+}
+
+// compareSummary compares ex.Summary() with what the files (the ones ex currently holds) encode.
+func compareSummary(ex *document.DocumentEx, files map[int][]byte) string {
 	before := time.Now()
 	sum := ex.Summary()
 	after := time.Now()
@@ -366,4 +379,83 @@ func shortHash(files map[int][]byte) uint64 {
 		}
 	}
 	return h
+}
+
+
+// TestSummaryHistories: the summary of a DocumentEx that is filled step by step, as a reader fills it
+// (and as the mobile binding shows it while reading).  History: the files of one generated document are
+// stored in a drawn order, some are then REPLACED by the same data group of a second generated document,
+// and Summary() is taken after drawn steps (always after the last).  Oracle: every summary equals what
+// the files held AT THAT MOMENT encode - the view is recomputed from the bytes, never remembered.
+func TestSummaryHistories(t *testing.T) {
+	evid.RapidCheck(t, 600, 30000, func(rt *rapid.T) {
+		src := rapidSource{rt}
+		o, _ := genOpts()
+		o.MaxImage = 24
+		o.SmallKeys = true
+		gens := []struct {
+			n   int
+			gen func() *ldsgen.File
+		}{
+			{1, func() *ldsgen.File { return ldsgen.DG1(src) }}, {11, func() *ldsgen.File { return ldsgen.DG11(src, o) }},
+			{12, func() *ldsgen.File { return ldsgen.DG12(src, o) }}, {2, func() *ldsgen.File { return ldsgen.DG2(src, o) }},
+			{7, func() *ldsgen.File { return ldsgen.DG7(src, o) }}, {16, func() *ldsgen.File { return ldsgen.DG16(src) }},
+			{keyCOM, func() *ldsgen.File { return ldsgen.COM(src) }}, {keySOD, func() *ldsgen.File { return ldsgen.SOD(src, nil) }},
+		}
+		type step struct {
+			n       int
+			b       []byte
+			replace bool
+		}
+		var steps []step
+		for _, g := range gens {
+			if rapid.IntRange(0, 2).Draw(rt, "present") > 0 {
+				steps = append(steps, step{n: g.n, b: g.gen().Bytes})
+			}
+		}
+		if len(steps) == 0 {
+			steps = append(steps, step{n: 1, b: ldsgen.DG1(src).Bytes})
+		}
+		steps = rapid.Permutation(steps).Draw(rt, "order")
+		first := len(steps)
+		for i := 0; i < first; i++ {
+			if rapid.IntRange(0, 3).Draw(rt, "replace") == 0 {
+				for _, g := range gens {
+					if g.n == steps[i].n {
+						steps = append(steps, step{n: g.n, b: g.gen().Bytes, replace: true})
+					}
+				}
+			}
+		}
+		var ex document.DocumentEx
+		files := map[int][]byte{}
+		var trace []string
+		summaries, replaced := 0, 0
+		for i, st := range steps {
+			if err := loadFile(&ex.Document, st.n, st.b); err != nil {
+				evid.Fail(rt, "summary-history", summaryRepro(files), "after %v: file %d rejected: %v", trace, st.n, err)
+			}
+			files[st.n] = st.b
+			if st.replace {
+				replaced++
+				trace = append(trace, fmt.Sprintf("replace %d", st.n))
+			} else {
+				trace = append(trace, fmt.Sprintf("store %d", st.n))
+			}
+			if i == len(steps)-1 || rapid.IntRange(0, 2).Draw(rt, "summarise") > 0 {
+				trace = append(trace, "Summary()")
+				summaries++
+				if msg := compareSummary(&ex, files); msg != "" {
+					rep := summaryRepro(files)
+					rep["trace"] = trace
+					evid.Fail(rt, "summary-history", rep, "after %v: %s", trace, msg)
+				}
+			}
+		}
+		class := "summary-history/filled-stepwise"
+		if replaced > 0 {
+			class = "summary-history/with-replacement"
+		}
+		evid.Case(class, summaries > 1, fmt.Sprintf("%v/%x", trace, shortHash(files)), map[string]any{"trace": trace})
+	})
 }
